@@ -147,10 +147,13 @@ class Arr:
     def sym_abs(self, it):
         return self.like(sabs(self.e))
 
+    def sym_unop(self, it, op):
+        return self.like(it.unop(op, self.e))
+
     def sym_len(self, it):
         if self.mask is True:
             return SV(self.space.n)
-        return SV(z3.Int(f"count[{self.space.name}|{z3.simplify(self.mask)}]"))
+        return SV(z3.Int(f"count[{self.space.name},{_key(self.mask)}]"))
 
     def sym_truth(self, it):
         raise PyRaise(ValueError("The truth value of an array with more than one element is ambiguous"))
@@ -317,7 +320,7 @@ def any_(it, a):
         t = z3.simplify(t)
         if z3.is_false(t):
             return False
-        ex = z3.Bool(f"any[{a.space.name}|{_key(a.mask)}|{_key(t)}]")
+        ex = z3.Bool(f"any[{a.space.name},{_key(a.mask)},{_key(t)}]")
         # axiom: if no row satisfies it, the generic row does not either
         m = _zb(a.mask)
         it.ctx.facts.append(z3.Implies(z3.And(m, t), ex))
@@ -333,7 +336,7 @@ def all_(it, a):
         t = z3.simplify(t)
         if z3.is_true(t):
             return True
-        al = z3.Bool(f"all[{a.space.name}|{_key(a.mask)}|{_key(t)}]")
+        al = z3.Bool(f"all[{a.space.name},{_key(a.mask)},{_key(t)}]")
         m = _zb(a.mask)
         it.ctx.facts.append(z3.Implies(al, z3.Implies(m, t)))
         return SV(al)
@@ -341,9 +344,13 @@ def all_(it, a):
 
 
 def _key(z):
+    """short stable name component for a formula (hash of its s-expression): symbol names stay SMT-LIB friendly"""
+    import hashlib
     if z is True:
         return "T"
-    return z3.simplify(z).sexpr()[:200] if not isinstance(z, bool) else str(z)
+    if isinstance(z, bool):
+        return str(z)
+    return hashlib.sha1(z3.simplify(z).sexpr().encode()).hexdigest()[:10]
 
 
 # ------------------------------------------------------------------------------------------------
@@ -466,7 +473,7 @@ class FilteredTable:
         raise EngineError("filtered table access")
 
     def sym_len(self, it):
-        return SV(z3.Int(f"count[{self.table.space.name}|{_key(self.mask)}]"))
+        return SV(z3.Int(f"count[{self.table.space.name},{_key(self.mask)}]"))
 
     def sym_contains(self, it, col):
         return self.table.has(it, col)
@@ -496,6 +503,9 @@ class Series:
 
     def __repr__(self):
         return f"<Series {self.table.name}.{self.col}>"
+
+    def sym_unop(self, it, op):
+        return self.arr().sym_unop(it, op)
 
     def sym_binop(self, it, op, a, b):
         return elementwise(it, lambda x, y: it.binop(op, x, y), a, b)
